@@ -14,7 +14,8 @@
 (*   [k |-> "dt", date |-> <<y,m,d>>|<<>>, time |-> <<h,mi,s,ns>>|<<>>,    *)
 (*        off |-> [t |-> "N"|"Z"|"O", m |-> minutes]]                      *)
 (*   [k |-> "a", v |-> <<values>>]                                         *)
-(*   [k |-> "t", v |-> <<[key, val, prom, ksp]...>>]   ordered             *)
+(*   [k |-> "t", v |-> <<[key, val, prom, ksp]...>>, kr]   ordered         *)
+(*        kr = key-path regions of the pairs of an inline table            *)
 (* Every value additionally carries sp |-> <<from, to>> (code point        *)
 (* positions, to exclusive; <<0,0>> = no span).                            *)
 (***************************************************************************)
@@ -27,7 +28,7 @@ VF(c, neg, d, e, sp) == [k |-> "f", c |-> c, neg |-> neg, d |-> d, e |-> e, sp |
 VB(b, sp) == [k |-> "b", v |-> b, sp |-> sp]
 VDT(date, time, off, sp) == [k |-> "dt", date |-> date, time |-> time, off |-> off, sp |-> sp]
 VA(vs, sp) == [k |-> "a", v |-> vs, sp |-> sp]
-VT(es, sp) == [k |-> "t", v |-> es, sp |-> sp]
+VT(es, sp) == [k |-> "t", v |-> es, sp |-> sp, kr |-> <<>>]
 Entry(key, val, prom, ksp) == [key |-> key, val |-> val, prom |-> prom, ksp |-> ksp]
 
 AllButLast(s) == SubSeq(s, 1, Len(s) - 1)
